@@ -1,14 +1,22 @@
 import BoltonsVerif.Common
 import BoltonsVerif.C20.Model
 /-
-C20 line protocol.  One line = one whole history:
-    <w> <nk> <op> <op> ...
-  a<k>            add(k)
-  u<k>,<k>,...    update(iterable of keys)      (`u-` = empty)
-  m<k>:<c>,...    update(mapping)               (`m-` = empty)
-  q<n>            most_common(n)  (no state change)
-Output: one `;`-separated record per op.  After a mutator the record is the
-full dump of every reader; after `q<n>` it is the returned list.
+C20 line protocol.  One line = one whole history over `ni` counters (all created
+up front with the same threshold; counter 0 is current at the start):
+    <w> <nk> <op> <op> ...            one counter
+    <w> <nk>x<ni> <op> <op> ...       ni counters
+  a<k>                  add(k)                                   on the current counter
+  u<k>,<k>,...          update(iterable of keys)                 (`u-` = empty)
+  m<k>:<c>,...          update(mapping) / update(**kw)           (`m-` = empty)
+  U<k>,..+<k>:<c>,..    update(iterable of keys, **kw)
+  M<k>:<c>,..+<k>:<c>,..  update(mapping, **kw)
+  t<j>                  update(counter j)   (j may be the current counter itself)
+  n                     the current counter is replaced by a fresh one
+  i<j>                  counter j becomes current                (no record)
+  q<n>                  most_common(n) on the current counter    (no state change)
+Output: one `;`-separated record per op except `i`.  After a mutator the record is
+the full dump of every reader of EVERY counter (` | `-separated; so that an effect on
+a counter that was not addressed shows); after `q<n>` it is the returned list.
 -/
 namespace C20.Driver
 open BV C20
@@ -35,28 +43,64 @@ def parsePairs? (s : String) : Option (List (Nat × Nat)) :=
       | _, _ => none
     | _, _ => none) (some [])
 
-def stepTok (nk : Nat) (s : TC Nat) (tok : String) : Option (TC Nat × String) :=
+/-- all counters and the index of the current one -/
+structure St where
+  cur : Nat
+  insts : List (TC Nat)
+
+def St.get (st : St) : Option (TC Nat) := st.insts[st.cur]?
+
+def St.set (st : St) (s : TC Nat) : St := { st with insts := st.insts.set st.cur s }
+
+def dumpAll (nk : Nat) (st : St) : String := " | ".intercalate (st.insts.map (dump nk))
+
+def mutate (nk : Nat) (st : St) (f : TC Nat → TC Nat) : Option (St × Option String) :=
+  st.get.map fun s => let st' := st.set (f s); (st', some (dumpAll nk st'))
+
+def stepTok (w nk : Nat) (st : St) (tok : String) : Option (St × Option String) :=
   let rest := (tok.drop 1).toString
   match tok.front with
-  | 'a' => rest.toNat?.map fun k => let s' := s.step (.add k); (s', dump nk s')
-  | 'u' => (natList? rest).map fun ks => let s' := s.step (.updateKeys ks); (s', dump nk s')
-  | 'm' => (parsePairs? rest).map fun kcs => let s' := s.step (.updateMap kcs); (s', dump nk s')
-  | 'q' => rest.toInt?.map fun n => (s, s!"Q{showPairs (s.mostCommon (some n))}")
+  | 'a' => rest.toNat?.bind fun k => mutate nk st (·.step (.add k))
+  | 'u' => (natList? rest).bind fun ks => mutate nk st (·.step (.updateKeys ks))
+  | 'm' => (parsePairs? rest).bind fun kcs => mutate nk st (·.step (.updateMap kcs))
+  | 'U' => match splitOnChar rest '+' with
+    | [a, b] => match natList? a, parsePairs? b with
+      | some ks, some kws => mutate nk st (·.step (.updateKeysKw ks kws))
+      | _, _ => none
+    | _ => none
+  | 'M' => match splitOnChar rest '+' with
+    | [a, b] => match parsePairs? a, parsePairs? b with
+      | some kcs, some kws => mutate nk st (·.step (.updateMapKw kcs kws))
+      | _, _ => none
+    | _ => none
+  | 't' => rest.toNat?.bind fun j => st.insts[j]?.bind fun src => mutate nk st (·.absorb src)
+  | 'n' => if rest = "" then mutate nk st (fun _ => TC.init w) else none
+  | 'i' => rest.toNat?.bind fun j => if j < st.insts.length then some ({ st with cur := j }, none) else none
+  | 'q' => rest.toInt?.bind fun n => st.get.map fun s => (st, some s!"Q{showPairs (s.mostCommon (some n))}")
+  | _ => none
+
+def parseNk? (s : String) : Option (Nat × Nat) :=
+  match splitOnChar s 'x' with
+  | [a] => a.toNat?.map fun nk => (nk, 1)
+  | [a, b] => match a.toNat?, b.toNat? with
+    | some nk, some ni => if ni = 0 then none else some (nk, ni)
+    | _, _ => none
   | _ => none
 
 def handle (line : String) : String :=
   match words line with
   | w :: nk :: toks =>
-    match w.toNat?, nk.toNat? with
-    | some w, some nk =>
+    match w.toNat?, parseNk? nk with
+    | some w, some (nk, ni) =>
       if w = 0 then "bad-op" else
-      let rec go (s : TC Nat) (toks : List String) (acc : List String) : Option (List String) :=
+      let rec go (st : St) (toks : List String) (acc : List String) : Option (List String) :=
         match toks with
         | [] => some acc.reverse
-        | t :: ts => match stepTok nk s t with
-          | some (s', out) => go s' ts (out :: acc)
+        | t :: ts => match stepTok w nk st t with
+          | some (st', some out) => go st' ts (out :: acc)
+          | some (st', none) => go st' ts acc
           | none => none
-      match go (TC.init w) toks [] with
+      match go ⟨0, List.replicate ni (TC.init w)⟩ toks [] with
       | some outs => ";".intercalate outs
       | none => "bad-op"
     | _, _ => "bad-op"
